@@ -10,6 +10,7 @@ def leaf_src(kind, i):
         "bool": f"x{i}", "int": f"x{i}", "undecl": f"nope{i}", "noov": f"('a' < x{i})",
         "map": f"([x{i}].map(y, 1 / y)[0] == 1)",
         "ovf": f"(int(1.0 / 0.0) == x{i})", "conv": f"(int('1a') == x{i})", "uint": f"(uint(x{i}) == 1u)",
+        "attr": f"('a'.getDate() == x{i})", "tzarg": f"(duration('1h').getHours('UTC') == x{i})",
     }[kind]
 
 
